@@ -31,6 +31,7 @@ from vlib.runner import Prop, Result
 
 NAMES = list(H.NAMES)
 ABSENT = '<absent>'
+FOLLOW_ID = 731009077
 UID0 = 731000000   # uids are UID0 + 100*wave + index: a forged packet does not contain such a number by accident
 # hostile values that no event attribute legitimately has (True/None/0/'c0' could be the genuine value)
 DISTINCT = ['HX', 666, ['HX'], {'h': 1}, [['c0']], -1, 2.5]
@@ -234,7 +235,7 @@ class C19(Prop):
                    'a hostile peer may answer its own connection arbitrarily: forged value packets use ids that are never allocated',
                    'hostile packets are delimiter-terminated; an unterminated hostile packet legitimately garbles what follows on that connection',
                    'result order of several coroutine handlers of one event is not asserted')
-    budget = {'quick': (350, 4), 'thorough': (6000, 16)}
+    budget = {'quick': (350, 4), 'thorough': (4000, 16)}
 
     def setup(self):
         driver.quiet_process()
@@ -463,7 +464,7 @@ class C19(Prop):
                 e.channels = ('c0',)
                 scripts[uid] = {'kind': 'plain', 'meta': {}, 'tamper_call': {}}
                 try:
-                    pkt = dump_event(e, 77).encode('utf-8')
+                    pkt = dump_event(e, FOLLOW_ID).encode('utf-8')
                 except Exception as exc:  # noqa - the serialiser is code under test
                     return Result(False, 'serialisation-roundtrip', 'dump_event(%s(%d, "after-hostile")) raised %s: %s' % (nm, uid, type(exc).__name__, str(exc)[:120]))
                 rig.inject(label, pkt + H.DELIM)
@@ -591,7 +592,7 @@ class C19(Prop):
             got = inv.get(uid, [])
             if len(got) != 1:
                 return bad('after-hostile', 'benign event sent after the hostile packets on %s ran %d times on %s' % (label, len(got), proc))
-            back = [pkt for lab, pkt, _ in rig.wire if lab == '%s>H' % proc and pkt and pkt.get('id') == 77 and 'value' in pkt]
+            back = [pkt for lab, pkt, _ in rig.wire if lab == '%s>H' % proc and pkt and pkt.get('id') == FOLLOW_ID and 'value' in pkt]
             if len(back) != 1 or not same(back[0]['value'], {'r': uid, 't': 't0', 'a': ['after-hostile'], 'k': {}}):
                 return bad('after-hostile', 'benign event after hostile packets on %s: %d answers %s' % (label, len(back), _short(back[:1])))
 
